@@ -176,8 +176,50 @@ def gate_contract(ctx):
     ob.instance("tFAW ready drivers evaluated for 0..6 activates in the window", [str(l) for l in rds])
     if bad_shape:
         ob.unknown("tFAW ready drivers not evaluable: %s" % bad_shape)
-    if CNT is not None and not any("window" in s_ or key(window) in s_ for s_ in support(deref(f, CNT))):
+    def _cnt_support(c_):
+        sup_ = set(support(deref(f, c_)))
+        for d_ in f.drivers(c_):      # a running count kept in a register: what its updates depend on
+            for g_, _ in d_.guards:
+                sup_ |= set(support(g_))
+            if isinstance(d_.value, V):
+                sup_ |= set(support(d_.value))
+        return sup_
+    if CNT is not None and not any("window" in s_ or key(window) in s_ for s_ in _cnt_support(CNT)):
         ob.refute("faw-count-source", "the term compared in the tFAW gate (%s) does not depend on the activate window %s" % (key(CNT), key(window)), rds[0].loc)
+    # alternative form: a running count kept in a register, +1 when an activate enters the window and none leaves, -1 when one leaves and none enters
+    # (leaving = the bit tfaw-1 of the window, which the shift pushes out of the counted range)
+    if CNT is not None and isinstance(CNT, (Obj, Sym)) and f.drivers(CNT) and all(d_.domain.startswith("sync") for d_ in f.drivers(CNT)):
+        ds_ = f.drivers(CNT)
+        inc_ = [d_ for d_ in ds_ if lin_diff(d_.value, d_.target) is not None and lin_diff(d_.value, d_.target).is_const() and lin_diff(d_.value, d_.target).constval() == 1]
+        dec_ = [d_ for d_ in ds_ if lin_diff(d_.target, d_.value) is not None and lin_diff(d_.target, d_.value).is_const() and lin_diff(d_.target, d_.value).constval() == 1]
+        if len(ds_) == 2 and len(inc_) == 1 and len(dec_) == 1:
+            leave_ = Op("index", (window, Op("-", (Sym("tfaw"), Const(1)))))
+            leave_k = {key(leave_), key(Op("slice", (window, Op("-", (Sym("tfaw"), Const(1))), Sym("tfaw"))))}
+            def cond_(l_):
+                return [expand_term(f, c_ if p_ else Op("~", (c_,))) for c_, p_ in l_.guards]
+            atoms_ = set()
+            for t_ in cond_(inc_[0]) + cond_(dec_[0]):
+                bool_atoms(t_, atoms_)
+            lv = [k_ for k_ in atoms_ if k_ in leave_k or (k_.startswith(key(window) + "[") and "tfaw" in k_)]
+            if len(lv) == 1 and atoms_ <= {key(fvalid), lv[0]}:
+                LV = Sym(lv[0])
+                # compare by truth table on (valid, leave); the atom of the leaving bit is matched by key
+                def tt(conds, want):
+                    for va in (False, True):
+                        for le in (False, True):
+                            env_ = {key(fvalid): va, lv[0]: le}
+                            if all(bool_val(c_, env_) for c_ in conds) != want(va, le):
+                                return False
+                    return True
+                ok_inc = tt(cond_(inc_[0]), lambda va, le: va and not le)
+                ok_dec = tt(cond_(dec_[0]), lambda va, le: le and not va)
+                ob.instance("tFAWController (running count)", {"count": key(CNT), "leaving bit": lv[0], "+1 iff valid & ~leaving": ok_inc, "-1 iff leaving & ~valid": ok_dec})
+                if ok_inc and ok_dec and lv[0] in leave_k:
+                    return
+                if not (ok_inc and ok_dec):
+                    ob.refute("faw-running-count", "the running activate count %s is not +1 exactly when an activate enters the window and none leaves / -1 exactly when one leaves and "
+                              "none enters (leaving bit %s): it drifts away from the number of activates in the last tfaw cycles" % (key(CNT), lv[0]), inc_[0].loc)
+                    return
     cnt = [l for l in f.leaves if l.kind == "assign" and l.domain == "comb" and isinstance(l.value, Op) and l.value.op in ("reduce", "sum")]
     rng_ok = any("range(tfaw)" in str(l.value).replace("call(range, tfaw)", "range(tfaw)") or "range(tfaw)" in str(l.value) for l in cnt)
     if not ob.need(bool(cnt) and rng_ok, "tFAW count is not the sum over range(tfaw) of the window"):
